@@ -17,10 +17,10 @@ type skel struct {
 }
 
 type fstate struct {
-	sk    []*skel
-	dom   [][]bool // dom[i][j]: j dominates i
-	vals  [][]*am.Value // values defined in block i (in order)
-	phis  [][]*am.Inst
+	sk   []*skel
+	dom  [][]bool      // dom[i][j]: j dominates i
+	vals [][]*am.Value // values defined in block i (in order)
+	phis [][]*am.Inst
 }
 
 func (g *G) localName(prefix string) string {
@@ -595,7 +595,9 @@ func (g *G) genInst(c *cur) {
 			c.add(in)
 		}
 	case 21: // va_arg
-		ps := c.find(func(t *am.Type) bool { return t.K == am.Ptr && t.Elem.K == am.Int && t.Elem.Bits == 8 && t.AddrSpace == 0 })
+		ps := c.find(func(t *am.Type) bool {
+			return t.K == am.Ptr && t.Elem.K == am.Int && t.Elem.Bits == 8 && t.AddrSpace == 0
+		})
 		if len(ps) == 0 {
 			return
 		}
